@@ -22,7 +22,7 @@ COMMON_ASSUMPTIONS = [
 
 
 prop('C01',
-     rules=['TAB-IMPLICIT', 'TAB-OPS', 'TAB-KEYS-OPT', 'TAB-FORMATTERS', 'CENSUS', 'SIB-CARET'],
+     rules=['TAB-IMPLICIT', 'TAB-OPS', 'TAB-KEYS-OPT', 'TAB-FORMATTERS', 'CENSUS', 'SIB-CARET', 'PATH-EMIT-HTML', ('PATH-STACK', ['markup'])],
      explanation='Decides, for every path of the code, the structural clauses of the tree property: operator characters and kinds '
                  'agree between tokenizer, parser and printer (D), implicit names come from the documented table with the span/div '
                  'fallback (D). The compositional claim "exactly the denoted tree" is a runtime-value clause and is not decided.',
@@ -30,7 +30,7 @@ prop('C01',
      technique='table agreement over constants read from the syntax tree; decision-table extraction of pure helpers')
 
 prop('C02',
-     rules=['NUM-LINEAR', ('NUM-LEFTPAD', ['abbreviation']), 'TAB-KEYS-PARSE', ('EXC-NUMCONV', ['abbreviation.tokenizer'])],
+     rules=['NUM-LINEAR', ('NUM-LEFTPAD', ['abbreviation']), 'TAB-KEYS-PARSE', ('EXC-NUMCONV', ['abbreviation.tokenizer']), ('PATH-STACK', ['abbreviation'])],
      explanation='Counter formulas are decided symbolically: forward base+i, reverse base+count-i-1 as linear normal forms, innermost '
                  'repeater, clamped parent index, left zero padding without truncation (D); maxRepeat reaches the converter under the key it reads (D).',
      not_decided=['exactly N copies under a global maxRepeat budget for nested repeaters (value-level)', 'tokenization of every $/@ form'],
@@ -44,7 +44,7 @@ prop('C03',
      technique='table agreement; decision-table extraction over the complete finite domain of the decision variables')
 
 prop('C04',
-     rules=['EXC-VISITOR', 'TAB-OPS', 'TAB-BRK', 'TAB-QUOTE', ('EXC-FMT', ['abbreviation']), ('CNT-DEPTH', ['abbreviation']), 'API-SPLITLINES', 'SIB-SPLITLINES', 'SIB-QUOTE'],
+     rules=['EXC-VISITOR', 'TAB-OPS', 'TAB-BRK', 'TAB-QUOTE', ('EXC-FMT', ['abbreviation']), ('CNT-DEPTH', ['abbreviation']), 'API-SPLITLINES', 'SIB-SPLITLINES', 'SIB-QUOTE', 'PATH-EMIT-HTML', 'PATH-EMIT-INDENT'],
      explanation='Every structural character that can occur inside text has a printer that gives the same character back (D at table level).',
      not_decided=['escape handling, nested brace extraction, placement of wrap text at the deepest node (value-level)',
                   'str.splitlines() also splits on VT/FF/FS/GS/RS/NEL/LS/PS (recorded as known finding by rule API-SPLITLINES when built)'],
@@ -80,7 +80,7 @@ prop('C08',
      technique='ownership and effect analysis')
 
 prop('C09',
-     rules=['RNG-STRICT/html', 'TAB-VOID', 'EXC-THROWS', 'EXC-RAISE/matcher', ('SCN-REST', ['html_matcher', 'scanner_utils']), ('SCN-OVER', ['html_matcher', 'scanner_utils']), ('SCN-PROGRESS', ['html_matcher', 'scanner_utils']),
+     rules=['RNG-STRICT/html', 'TAB-VOID', 'EXC-THROWS', 'EXC-RAISE/matcher', ('RNG-STOP', ['html_matcher']), ('SCN-REST', ['html_matcher', 'scanner_utils']), ('SCN-OVER', ['html_matcher', 'scanner_utils']), ('SCN-PROGRESS', ['html_matcher', 'scanner_utils']),
             ('SCN-SKIP', ['html_matcher', 'scanner_utils']), 'SIB-VOID', ('SIB-QUOTE', ['scanner_utils']), ('PATH-FLAG', ['html_matcher']), ('CNT-DEPTH', ['scanner_utils'])],
      explanation='match and balanced_outward use one strict containment predicate with the same bounds (N); the void list is the HTML void set and '
                  'void handling depends on xml mode as documented (D); scanner helpers are never asked to throw (D).',
@@ -88,7 +88,7 @@ prop('C09',
      technique='comparison-shape analysis; table agreement')
 
 prop('C10',
-     rules=['RNG-STRICT/css', ('RNG-SENT', ['css_matcher']), 'RNG-PAREN', ('SCN-REST', ['css_matcher']), ('SCN-OVER', ['css_matcher']), ('SCN-PROGRESS', ['css_matcher']),
+     rules=['RNG-STRICT/css', ('RNG-SENT', ['css_matcher']), 'RNG-PAREN', ('RNG-STOP', ['css_matcher']), ('SCN-REST', ['css_matcher']), ('SCN-OVER', ['css_matcher']), ('SCN-PROGRESS', ['css_matcher']),
             ('SCN-SKIP', ['css_matcher']), ('SIB-QUOTE', ['css_matcher']), 'RNG-TRIM', ('CNT-DEPTH', ['css_matcher'])],
      explanation='Strict containment (N); arithmetic on a delimiter that may be the -1 sentinel is guarded wherever it can reach a result (N); '
                  'delimiters inside parentheses (N, known finding).',
@@ -102,7 +102,7 @@ prop('C11',
      technique='clamp dominance; table agreement')
 
 prop('C12',
-     rules=['TAB-SELFCLOSE', 'ACC-WRITER', 'TAB-KEYS-OPT', 'OWN-RAWPUSH', 'SIB-SPLITLINES'],
+     rules=['TAB-SELFCLOSE', 'ACC-WRITER', 'TAB-KEYS-OPT', 'OWN-RAWPUSH', 'SIB-SPLITLINES', 'PATH-LEVEL', 'PATH-EMIT-HTML'],
      explanation='Self-closing style decides only the characters before > (D); newline/indent emission is newline + baseIndent + level*indent (D).',
      not_decided=['should_format\'s choice of where to break'],
      technique='decision tables; who-may-write')
@@ -116,28 +116,28 @@ prop('C13',
      assumptions=['strings handed to raw push() contain no newline'])
 
 prop('C14',
-     rules=['COV-MERGE', 'TAB-SNIPKEYS'],
+     rules=['COV-MERGE', 'TAB-SNIPKEYS', ('PATH-STACK', ['markup.snippets', 'markup.utils'])],
      explanation='All data written on an alias (attributes, text, repeater, self-closing mark) is transferred to every top-level node of the definition and '
                  'children go to the last-child chain (N); multi-key tables do not shadow each other (D).',
      not_decided=['"expands exactly like its definition" (value-level)'],
      technique='field coverage; splice shape')
 
 prop('C15',
-     rules=['TAB-KEYS-PROFILE', 'TAB-FORMATTERS', 'SIB-CARET', 'SIB-SPLITLINES', 'OWN-RAWPUSH'],
+     rules=['TAB-KEYS-PROFILE', 'TAB-FORMATTERS', 'SIB-CARET', 'SIB-SPLITLINES', 'OWN-RAWPUSH', 'PATH-LEVEL', 'PATH-EMIT-INDENT'],
      explanation='Profile keys read by subscript exist in all three profiles and carry the documented punctuation (D); each syntax reaches its formatter (D).',
      not_decided=['tree equality with the HTML output; layout of multi-line text'],
      technique='reader/writer key agreement')
 
 prop('C16',
      rules=['SCN-CORE', ('SCN-OVER', MATCH_MODS), ('SCN-PROGRESS', MATCH_MODS), ('SCN-REST', MATCH_MODS), ('SCN-SKIP', MATCH_MODS), 'SIB-VOID', 'RNG-TRIM',
-            ('PATH-FLAG', MATCH_MODS), ('CNT-DEPTH', MATCH_MODS), 'RNG-SENT', 'RNG-STRICT/html', 'RNG-STRICT/css', 'EXC-RAISE/matcher', 'EXC-THROWS'],
+            ('PATH-FLAG', MATCH_MODS), ('CNT-DEPTH', MATCH_MODS), ('RNG-STOP', MATCH_MODS), 'RNG-SENT', 'RNG-STRICT/html', 'RNG-STRICT/css', 'EXC-RAISE/matcher', 'EXC-THROWS'],
      explanation='No explicit raise is reachable from the matchers (D); sentinel arithmetic guarded (N); strict containment (N).',
      not_decided=['relational clauses between match / balanced_outward / balanced_inward beyond predicate agreement'],
      technique='call-graph reachability; sentinel-flow analysis')
 
 prop('C17',
      rules=[('RNG-SENT', ['action_utils']), 'RNG-STRICT/actions', 'EXC-RAISE/matcher', ('SCN-OVER', ['action_utils', 'css_matcher.parse', 'html_matcher.attributes']), ('SCN-PROGRESS', ['action_utils', 'css_matcher.parse', 'html_matcher.attributes']),
-            ('CNT-DEPTH', ['css_matcher.parse', 'action_utils']), 'RNG-TRIM'],
+            ('CNT-DEPTH', ['css_matcher.parse', 'action_utils']), 'RNG-TRIM', ('RNG-STOP', ['action_utils'])],
      explanation='The after offset of a declaration without ; and the open-tag containment test (N).',
      not_decided=['next/previous item selection logic'],
      technique='sentinel-flow analysis')
